@@ -1,0 +1,6 @@
+//go:build verif
+
+// Contracts for the verification harness in /verif (comment-only; no declarations).
+package informer
+
+//@ pred validInformer(ri) = ri != nil && ri.sharedResourceInformer != nil && ri.sharedResourceInformer.lister != nil && ri.informerWrapper != nil && ri.sharedResourceInformer.close != nil
